@@ -64,10 +64,11 @@ type stmt struct {
 }
 
 type progCase struct {
-	Mode         string      `json:"mode"` // eval | load | error | cancel | sessions
+	Mode         string      `json:"mode"` // eval | load | error | cancel | sessions | recover
 	CPU          int         `json:"cpu"`
 	Tables       []tableSpec `json:"tables"`
-	Progs        [][]stmt    `json:"progs"` // one statement list per session
+	Progs        [][]stmt    `json:"progs"`                // one statement list per session
+	KeepGoing    bool        `json:"keep_going,omitempty"` // like the interactive shell: a failed statement does not end the program
 	CancelAtTask int         `json:"cancel_at_task,omitempty"`
 	CancelSpin   int         `json:"cancel_spin,omitempty"`
 }
@@ -295,7 +296,7 @@ DECLARE ustr FUNCTION (@x, @p DEFAULT '<') AS BEGIN
   RETURN @r || '>';
 END;
 DECLARE ufail FUNCTION (@x, @bad) AS BEGIN
-  IF @x == @bad THEN TRIGGER ERROR 70 'requested failure'; END IF;
+  IF INTEGER(@x) = @bad THEN TRIGGER ERROR 70 'requested failure'; END IF;
   RETURN @x;
 END;
 DECLARE usum AGGREGATE (cur, @m DEFAULT 1) AS BEGIN
@@ -307,6 +308,55 @@ DECLARE usum AGGREGATE (cur, @m DEFAULT 1) AS BEGIN
   RETURN @a;
 END;
 `
+
+// tableUDFs: user-defined functions whose bodies read the case's tables (cursor over the small
+// table, SELECT .. INTO over a big one, a temporary table of their own).
+func tableUDFs(c progCase) string {
+	ref := func(name string) string {
+		for _, t := range c.Tables {
+			if t.Name == name {
+				return t.ref()
+			}
+		}
+		return ""
+	}
+	var b strings.Builder
+	if r := ref("t3"); r != "" {
+		b.WriteString(`
+DECLARE ucur FUNCTION (@x) AS BEGIN
+  VAR @sum := 0; VAR @v;
+  DECLARE cur CURSOR FOR SELECT c.v FROM ` + r + ` c WHERE c.k = @x % 5;
+  OPEN cur;
+  WHILE @v IN cur DO
+    IF @v IS NULL THEN CONTINUE; END IF;
+    @sum := @sum + @v;
+  END WHILE;
+  CLOSE cur;
+  DISPOSE CURSOR cur;
+  RETURN @sum;
+END;
+`)
+	}
+	if r := ref("t1"); r != "" {
+		b.WriteString(`
+DECLARE ucnt FUNCTION (@x) AS BEGIN
+  VAR @n;
+  SELECT COUNT(*) INTO @n FROM ` + r + ` b WHERE b.k = @x AND b.v IS NOT NULL;
+  RETURN @n;
+END;
+`)
+	}
+	b.WriteString(`
+DECLARE utmp FUNCTION (@x) AS BEGIN
+  DECLARE tt VIEW (a, b);
+  INSERT INTO tt VALUES (@x, 1), (@x + 1, 2), (@x + 2, 3);
+  VAR @r;
+  SELECT SUM(a * b) INTO @r FROM tt;
+  RETURN @r;
+END;
+`)
+	return b.String()
+}
 
 // ---- generator ------------------------------------------------------------
 
@@ -349,6 +399,36 @@ var strTmpl = []string{
 	"ADD_DAY(%a.d, 3)", "REPLACE(%a.s, 's', 'S')", "FORMAT('%s:%05s', %a.g, %a.id)",
 }
 
+// every built-in function of the manual except CALL (an external process per row), evaluated per row
+var fnTmpl = []string{
+	// logical
+	"COALESCE(%a.v, %a.k)", "IF(%a.v > 3, %a.s, %a.g)", "IFNULL(%a.v, 0)", "NULLIF(%a.k, 1)",
+	// numeric
+	"ABS(%a.v)", "ACOS(%a.v / 100.0)", "ACOSH(%a.id)", "ASIN(%a.v / 100.0)", "ASINH(%a.v)", "ATAN(%a.v)", "ATAN2(%a.v, %a.k + 1)", "ATANH(%a.v / 100.0)",
+	"CBRT(%a.v)", "CEIL(%a.v / 3.0)", "CEIL(%a.v / 3.0, 1)", "COS(%a.v)", "COSH(%a.k)", "EXP(%a.k)", "EXP2(%a.k)", "EXPM1(%a.k)", "FLOOR(%a.v / 3.0)", "FLOOR(%a.v / 3.0, 1)",
+	"IS_INF(%a.v)", "IS_NAN(%a.v)", "LOG(%a.id)", "LOG10(%a.id)", "LOG1P(%a.id)", "LOG2(%a.id)", "LOGB(%a.id)", "POW(%a.k, 2)", "ROUND(%a.v / 3.0)", "ROUND(%a.v / 3.0, 2)",
+	"SIN(%a.v)", "SINH(%a.k)", "SQRT(%a.id)", "TAN(%a.v)", "TANH(%a.v)", "BIN_TO_DEC(BIN(%a.id))", "OCT_TO_DEC(OCT(%a.id))", "HEX_TO_DEC(HEX(%a.id))",
+	"ENOTATION_TO_DEC(ENOTATION(%a.id * 1.5))", "NUMBER_FORMAT(%a.id * 1234.5, 2, '.', ',', '')", "RAND()", "RAND(1, 100)", "RAND(COALESCE(%a.k, 0), COALESCE(%a.k, 0) + 10)", "RAND() * %a.id",
+	// datetime
+	"NOW()", "DATETIME_FORMAT(%a.d, '%Y-%m-%d %H:%i:%s')", "YEAR(%a.d)", "MONTH(%a.d)", "DAY(%a.d)", "HOUR(NOW())", "MINUTE(NOW())", "SECOND(NOW())", "MILLISECOND(NOW())",
+	"MICROSECOND(NOW())", "NANOSECOND(NOW())", "WEEKDAY(%a.d)", "UNIX_TIME(%a.d)", "UNIX_NANO_TIME(%a.d)", "DAY_OF_YEAR(%a.d)", "WEEK_OF_YEAR(%a.d)",
+	"ADD_YEAR(%a.d, 1)", "ADD_MONTH(%a.d, %a.k)", "ADD_DAY(%a.d, %a.k)", "ADD_HOUR(%a.d, 5)", "ADD_MINUTE(%a.d, 5)", "ADD_SECOND(%a.d, %a.k)", "ADD_MILLI(%a.d, 5)", "ADD_MICRO(%a.d, 5)", "ADD_NANO(%a.d, 5)",
+	"TRUNC_MONTH(%a.d)", "TRUNC_DAY(%a.d)", "TRUNC_TIME(NOW())", "TRUNC_HOUR(NOW())", "TRUNC_MINUTE(NOW())", "TRUNC_SECOND(NOW())", "TRUNC_MILLI(NOW())", "TRUNC_MICRO(NOW())", "TRUNC_NANO(NOW())",
+	"DATE_DIFF(%a.d, NOW())", "TIME_DIFF(NOW(), %a.d)", "TIME_NANO_DIFF(%a.d, '2020-01-01')", "UTC(%a.d)", "MILLI_TO_DATETIME(%a.id * 100000)", "NANO_TO_DATETIME(%a.id * 1000000000)",
+	// string
+	"TRIM(' ' || %a.s || ' ')", "TRIM(%a.s, 's')", "LTRIM(%a.s, 's')", "RTRIM(%a.s || '  ')", "UPPER(%a.s)", "LOWER(%a.g)", "BASE64_ENCODE(%a.s)", "BASE64_DECODE(BASE64_ENCODE(%a.s))",
+	"HEX_ENCODE(%a.s)", "HEX_DECODE(HEX_ENCODE(%a.g))", "LEN(%a.s)", "BYTE_LEN(%a.s)", "BYTE_LEN(%a.s, 'SJIS')", "WIDTH(%a.s)", "LPAD(%a.s, 8, '-')", "RPAD(%a.s, 8, 'ab')",
+	"SUBSTRING(%a.s FROM 2 FOR 2)", "SUBSTRING(%a.s, 1, 2)", "SUBSTR(%a.s, 1)", "INSTR(%a.s, '1')", "LIST_ELEM(%a.j, ',', 0)", "REPLACE(%a.s, 's', 'S')",
+	"REGEXP_MATCH(%a.s, '^S[0-9]+$', 'i')", "REGEXP_FIND(%a.s, '[0-9]+')", "REGEXP_FIND_SUBMATCHES(%a.s, '(s)([0-9]+)')", "REGEXP_FIND_ALL(%a.j, '[0-9]+')", "REGEXP_REPLACE(%a.s, '[0-9]', '#')",
+	"TITLE_CASE(%a.g)", "FORMAT('%s-%d', %a.s, %a.id)", "JSON_VALUE('[0]', %a.j)", "JSON_OBJECT(%a.id, %a.s)",
+	// cryptographic hash
+	"MD5(%a.s)", "SHA1(%a.s)", "SHA256(%a.s)", "SHA512(%a.s)", "MD5_HMAC(%a.s, 'key')", "SHA1_HMAC(%a.s, 'key')", "SHA256_HMAC(%a.s, %a.g)", "SHA512_HMAC(%a.s, 'key')",
+	// cast
+	"STRING(%a.v)", "INTEGER(%a.v * 1.5)", "FLOAT(%a.v)", "DATETIME(%a.d)", "DATETIME(%a.d, 'Asia/Tokyo')", "BOOLEAN(%a.v % 2)", "TERNARY(%a.v % 2)",
+	// user-defined functions with variables, a cursor over a table, SELECT .. INTO, an own temporary table
+	"ucur(%a.k)", "utmp(%a.k)", "ucur(%a.v)", "utmp(%a.id)",
+}
+
 var predTmpl = []string{
 	"%a.v > #", "%a.k = #", "%a.v IS NULL", "%a.v IS NOT NULL", "%a.s LIKE 's1%'", "%a.v IN (1, 2, 3, 5, 8)",
 	"%a.v BETWEEN 2 AND 9", "REGEXP_MATCH(%a.s, '^s[0-4]')", "%a.k IN (SELECT c.k FROM %S c WHERE c.v > 3)",
@@ -386,11 +466,29 @@ func (x *g) noteExpr(e string) {
 	}
 }
 
-func (x *g) any(a string) string {
-	if x.pct("numOrStr", 60) {
-		return x.num(a)
+func (x *g) fn(a string) string {
+	e := sub(x.pick("fn", fnTmpl), a, x.small.ref())
+	switch {
+	case strings.Contains(e, "RAND("):
+		x.op("rand")
+	case strings.Contains(e, "NOW("):
+		x.op("now")
+	case strings.Contains(e, "ucur(") || strings.Contains(e, "utmp("):
+		x.op("udf_body")
+	default:
+		x.op("builtin")
 	}
-	return x.str(a)
+	return e
+}
+
+func (x *g) any(a string) string {
+	switch fw.Weighted(x.t, "exprKind", []int{40, 25, 35}) {
+	case 0:
+		return x.num(a)
+	case 1:
+		return x.str(a)
+	}
+	return x.fn(a)
 }
 
 func (x *g) pred1(a string) string {
@@ -508,7 +606,7 @@ func (x *g) qFilter() string {
 	return q + x.orderLimit("a", 35, "a.id")
 }
 
-var joinKinds = []string{"JOIN", "INNER JOIN", "LEFT JOIN", "LEFT OUTER JOIN", "RIGHT JOIN", "FULL JOIN", "FULL OUTER JOIN", "CROSS JOIN", "NATURAL JOIN", "NATURAL LEFT JOIN", "USING", "LEFT USING", "LATERAL", "LEFT LATERAL"}
+var joinKinds = []string{"JOIN", "INNER JOIN", "LEFT JOIN", "LEFT OUTER JOIN", "RIGHT JOIN", "FULL JOIN", "FULL OUTER JOIN", "FULL JOIN", "CROSS JOIN", "NATURAL JOIN", "NATURAL LEFT JOIN", "USING", "LEFT USING", "LATERAL", "LEFT LATERAL"}
 
 func (x *g) qJoin() string {
 	t := x.bigTable("joinLeft")
@@ -772,6 +870,94 @@ func (x *g) qSubquery() string {
 	return "SELECT a.id, (SELECT COUNT(*) FROM " + x.small.ref() + " c WHERE c.k = a.k) AS n1, " + x.any("a") + " AS c1 FROM " + t.ref() + " a WHERE a.v > (SELECT AVG(b.v) FROM " + t2.ref() + " b)" + x.orderLimit("a", 20, "a.id")
 }
 
+// qSmallOuter: the outer table is small (one goroutine), the correlated inner query runs over a big
+// table on several goroutines that all refer to the same outer record.
+func (x *g) qSmallOuter() string {
+	x.op("small_outer")
+	big := x.bigTable("innerBig")
+	b, c := big.ref()+" b", x.small.ref()+" c"
+	corr := x.pick("smallOuterCorr", []string{"b.k = c.k", "b.k = c.id", "b.k = c.k AND b.g <> c.g", "b.v > c.v AND b.k = c.k", "b.id % 7 = c.id % 7 AND b.s <> c.s"})
+	switch fw.Weighted(x.t, "smallOuterShape", []int{22, 16, 14, 12, 12, 12, 12}) {
+	case 0:
+		x.op("scalar_subquery")
+		return "SELECT c.id, c.g, (SELECT " + x.pick("soAgg", []string{"COUNT(*)", "MAX(b.v)", "SUM(b.v + c.v)", "MIN(b.s || c.s)"}) + " FROM " + b + " WHERE " + corr + ") AS n FROM " + c
+	case 1:
+		x.op("exists_subquery")
+		return "SELECT c.id, " + x.any("c") + " AS c1 FROM " + c + " WHERE " + x.pick("soNot", []string{"", "NOT "}) + "EXISTS (SELECT 1 FROM " + b + " WHERE " + corr + ")"
+	case 2:
+		x.op("in_subquery")
+		return "SELECT c.id, c.k FROM " + c + " WHERE c.k IN (SELECT b.k FROM " + b + " WHERE b.v > c.v OR b.g = c.g)"
+	case 3:
+		x.op("scalar_subquery")
+		x.op("in_subquery")
+		return "SELECT c.id, (SELECT COUNT(*) FROM " + b + " WHERE " + corr + ") AS n1, c.v IN (SELECT b.v FROM " + b + " WHERE b.k = c.k) AS f FROM " + c + " WHERE c.v > ANY (SELECT b.v - 10 FROM " + b + " WHERE b.g = c.g)"
+	case 4:
+		x.op("join:LATERAL_big_inner")
+		return "SELECT c.id, l.k, l.n FROM " + c + " " + x.pick("soLat", []string{"JOIN", "LEFT JOIN"}) + " LATERAL (SELECT b.k, COUNT(*) AS n, MAX(b.v) AS m FROM " + b + " WHERE b.k = c.k AND b.v IS NOT NULL GROUP BY b.k) l ON " + x.pick("soLatOn", []string{"TRUE", "l.n > 1"})
+	case 5:
+		// two levels: the innermost query refers to both outer records
+		x.op("nested_subquery")
+		big2 := x.bigTable("innerBig2")
+		return "SELECT c.id, (SELECT COUNT(*) FROM " + b + " WHERE b.k = c.k AND b.v > (SELECT AVG(e.v) FROM " + big2.ref() + " e WHERE e.g = b.g AND e.k = c.k)) AS n FROM " + c + " WHERE c.id <= 6"
+	}
+	x.op("udf_body")
+	return "SELECT c.id, ucnt(c.k) AS n, ucur(c.id) AS m FROM " + c
+}
+
+// qPrepared: a prepared statement executed several times over a big table.
+func (x *g) qPrepared() []string {
+	t := x.bigTable("prepTable")
+	if strings.Contains(t.ref(), "'") || strings.Contains(x.small.ref(), "'") {
+		return []string{x.qFilter()}
+	}
+	x.op("prepared")
+	x.seq++
+	name := fmt.Sprintf("ps%d", x.seq)
+	var body string
+	var using [][]string
+	switch fw.Uniform(x.t, "prepShape", 4) {
+	case 0:
+		body = "SELECT a.id, a.v + ? AS c1 FROM " + t.ref() + " a WHERE a.v > ? AND a.k IN (SELECT c.k FROM " + x.small.ref() + " c WHERE c.v > ?)"
+		using = [][]string{{"1", "3", "2"}, {"10", "0", "5"}}
+	case 1:
+		body = "SELECT a.g, COUNT(*) AS n, SUM(a.v * :m) AS sv FROM " + t.ref() + " a WHERE a.k <> :k GROUP BY a.g"
+		using = [][]string{{"2 AS m", "1 AS k"}, {"3 AS m", "0 AS k"}}
+	case 2:
+		body = "SELECT a.id, RANK() OVER (PARTITION BY a.g ORDER BY a.v) AS r FROM " + t.ref() + " a WHERE a.id % ? <> 0 ORDER BY a.id LIMIT ?"
+		using = [][]string{{"3", "50"}, {"2", "200"}}
+	default:
+		body = "SELECT a.id, b.id AS bid FROM " + t.ref() + " a FULL JOIN " + x.small.ref() + " b ON a.k = b.k AND a.v > ?"
+		using = [][]string{{"2"}, {"100"}}
+	}
+	out := []string{"PREPARE " + name + " FROM '" + body + "'"}
+	for _, u := range using {
+		out = append(out, "EXECUTE "+name+" USING "+strings.Join(u, ", "))
+	}
+	if x.pct("prepDispose", 50) {
+		out = append(out, "DISPOSE PREPARE "+name)
+	}
+	return out
+}
+
+// qFnScan: several built-in functions per row.
+func (x *g) qFnScan() string {
+	x.op("fn_scan")
+	t := x.bigTable("fnTable")
+	n := x.rng("nFns", 2, 6)
+	fs := []string{"a.id"}
+	for i := 0; i < n; i++ {
+		fs = append(fs, fmt.Sprintf("%s AS f%d", x.fn("a"), i+1))
+	}
+	q := "SELECT " + strings.Join(fs, ", ") + " FROM " + t.ref() + " a"
+	switch fw.Weighted(x.t, "fnScanTail", []int{50, 25, 25}) {
+	case 1:
+		q += " WHERE " + x.fn("a") + " IS NOT NULL"
+	case 2:
+		q += " ORDER BY " + x.fn("a") + ", a.id"
+	}
+	return q
+}
+
 // dmlTable picks a table that may be the target of DML (temporary, or a file of a format addressed by name).
 func (x *g) dmlTable() (tableSpec, bool) {
 	if x.mode == "sessions" {
@@ -894,7 +1080,7 @@ func flatten(groups [][]stmt) []stmt {
 	return append(out, last...)
 }
 
-// weights: filter, join, group, distinct, setop, order, analytic, subquery, dml
+// weights: filter, join, group, distinct, setop, order, analytic, subquery, dml, small outer, prepared, function scan
 func (x *g) statement(weights []int) []stmt {
 	x.ops = map[string]bool{}
 	var sqls []string
@@ -915,8 +1101,14 @@ func (x *g) statement(weights []int) []stmt {
 		sqls = []string{x.qAnalytic()}
 	case 7:
 		sqls = []string{x.qSubquery()}
-	default:
+	case 8:
 		sqls = x.qDML()
+	case 9:
+		sqls = []string{x.qSmallOuter()}
+	case 10:
+		sqls = x.qPrepared()
+	default:
+		sqls = []string{x.qFnScan()}
 	}
 	ops := fw.SortedKeys(x.ops)
 	var out []stmt
@@ -926,7 +1118,7 @@ func (x *g) statement(weights []int) []stmt {
 	return out
 }
 
-var allShapes = []int{14, 16, 14, 7, 9, 8, 14, 8, 10}
+var allShapes = []int{11, 16, 12, 6, 8, 7, 12, 8, 9, 12, 5, 9}
 
 // ---- tables ---------------------------------------------------------------
 
@@ -999,7 +1191,7 @@ func genSessions(t *rapid.T) progCase {
 func genCancel(t *rapid.T) progCase {
 	big, small := genTables(t, mixedFilePct(), fileFormats)
 	x := &g{t: t, mode: "cancel", big: big, small: small}
-	c := progCase{Mode: "cancel", CPU: genCPU(t), Tables: append(big, small), Progs: [][]stmt{x.program(2, []int{12, 22, 14, 5, 8, 8, 14, 9, 8})}}
+	c := progCase{Mode: "cancel", CPU: genCPU(t), Tables: append(big, small), Progs: [][]stmt{x.program(2, []int{10, 20, 12, 5, 7, 7, 12, 8, 7, 12, 3, 7})}}
 	c.CancelAtTask = 1 + fw.Weighted(t, "cancelAtTask", []int{50, 25, 15, 10})
 	c.CancelSpin = fw.PickU(t, "cancelSpin", []int{0, 0, 1, 5, 20, 100, 400, 2000})
 	return c
@@ -1135,6 +1327,87 @@ func genError(t *rapid.T) progCase {
 	prog = append(prog, failing...)
 	c.Progs = [][]stmt{prog}
 	return c
+}
+
+// genRecover: like the interactive shell or a library user, the session goes on after failed
+// statements: 1-3 statements that fail at different stages (LIMIT / OFFSET / WHERE / ORDER BY evaluation,
+// WITH clause, unknown objects, DML), then statements evaluated by several workers with per-row subqueries.
+func genRecover(t *rapid.T) progCase {
+	big, small := genTables(t, mixedFilePct(), fileFormats)
+	x := &g{t: t, mode: "recover", big: big, small: small}
+	c := progCase{Mode: "recover", CPU: genCPU(t), Tables: append(big, small), KeepGoing: true}
+	var prog []stmt
+	nFail := fw.Range(t, "nFailing", 1, 3)
+	kinds := []string{"offset_string", "offset_string", "limit_string", "limit_offset_string", "where_div0", "orderby_div0", "select_unknown_column", "unknown_table",
+		"with_unknown_column", "scalar_subquery_rows", "insert_field_count", "update_unknown_column", "udf_trigger", "into_undeclared", "execute_unknown", "function_args", "subquery_offset_string", "union_offset_string"}
+	for i := 0; i < nFail; i++ {
+		tb := x.bigTable("failTable")
+		kind := fw.PickU(t, "recoverKind", kinds)
+		var sql string
+		switch kind {
+		case "offset_string":
+			sql = "SELECT a.id FROM " + tb.ref() + " a ORDER BY a.id OFFSET 'abc'"
+		case "limit_string":
+			sql = "SELECT a.id FROM " + tb.ref() + " a LIMIT 'abc'"
+		case "limit_offset_string":
+			sql = "SELECT a.id, a.v FROM " + tb.ref() + " a WHERE a.v > 2 LIMIT 10 OFFSET 'x'"
+		case "where_div0":
+			sql = fmt.Sprintf("SELECT a.id FROM %s a WHERE 100 / (INTEGER(a.id) - %d) > 0", tb.ref(), fw.Range(t, "recoverRow", 1, tb.N))
+		case "orderby_div0":
+			sql = fmt.Sprintf("SELECT a.id FROM %s a ORDER BY 100 %% (INTEGER(a.id) - %d)", tb.ref(), fw.Range(t, "recoverRow2", 1, tb.N))
+		case "select_unknown_column":
+			sql = "SELECT a.id, a.nosuchcolumn FROM " + tb.ref() + " a"
+		case "unknown_table":
+			sql = "SELECT x.id FROM nosuchtable x WHERE x.id IN (SELECT a.id FROM " + tb.ref() + " a)"
+		case "with_unknown_column":
+			sql = "WITH w AS (SELECT a.nosuchcolumn FROM " + tb.ref() + " a) SELECT * FROM w"
+		case "scalar_subquery_rows":
+			sql = "SELECT a.id FROM " + tb.ref() + " a WHERE a.v > (SELECT c.v FROM " + small.ref() + " c)"
+		case "insert_field_count":
+			sql = "INSERT INTO " + nvl(tb.dmlTarget(), "t9") + " (id, k) SELECT a.id, a.k, a.g FROM " + tb.ref() + " a"
+		case "update_unknown_column":
+			sql = "UPDATE " + nvl(tb.dmlTarget(), "t9") + " SET nosuchcolumn = 1"
+		case "udf_trigger":
+			sql = fmt.Sprintf("SELECT a.id, ufail(a.id, %d) AS f FROM %s a", fw.Range(t, "recoverRow3", 1, tb.N), tb.ref())
+		case "into_undeclared":
+			sql = "SELECT COUNT(*) INTO @undeclared FROM " + tb.ref() + " a"
+		case "execute_unknown":
+			sql = "EXECUTE nosuchstatement USING 1"
+		case "function_args":
+			sql = "SELECT a.id, UPPER(a.s, a.g, 3) AS f FROM " + tb.ref() + " a"
+		case "subquery_offset_string":
+			sql = "SELECT a.id FROM " + tb.ref() + " a WHERE a.k IN (SELECT c.k FROM " + small.ref() + " c ORDER BY c.k OFFSET 'abc')"
+		case "union_offset_string":
+			sql = "SELECT a.k FROM " + tb.ref() + " a UNION SELECT c.k FROM " + small.ref() + " c ORDER BY 1 OFFSET 'abc'"
+		}
+		prog = append(prog, stmt{SQL: sql, Ops: []string{"failing:" + kind}, Fail: "recover:" + kind})
+	}
+	// afterwards: per-row subqueries on several workers, then anything
+	n := fw.Range(t, "nAfter", 1, 3)
+	for i := 0; i < n; i++ {
+		if i == 0 || fw.Pct(t, "afterCorr", 40) {
+			x.ops = map[string]bool{}
+			tb := x.bigTable("afterTable")
+			x.op("corr_subquery")
+			sql := "SELECT a.id, " + x.any("a") + " AS c1 FROM " + tb.ref() + " a WHERE " + fw.PickU(t, "afterPred", []string{
+				"EXISTS (SELECT 1 FROM " + small.ref() + " c WHERE c.k = a.k)",
+				"a.k IN (SELECT c.k FROM " + small.ref() + " c WHERE c.v > a.v)",
+				"a.v > (SELECT AVG(c.v) FROM " + small.ref() + " c WHERE c.k = a.k % 5)",
+				"(SELECT COUNT(*) FROM (SELECT c.id FROM " + small.ref() + " c WHERE c.k = a.k) s) > 0"})
+			prog = append(prog, stmt{SQL: sql, Ops: fw.SortedKeys(x.ops)})
+		} else {
+			prog = append(prog, x.statement(allShapes)...)
+		}
+	}
+	c.Progs = [][]stmt{prog}
+	return c
+}
+
+func nvl(s, d string) string {
+	if s == "" {
+		return d
+	}
+	return s
 }
 
 // opsOf collects the operator labels of a case.
